@@ -57,6 +57,22 @@ def replay(recs):
                 ([("Rectangle", g.Rectangle)] if n == 4 and is_rect(r["poly"]) else [])
             for cname, cls in classes:
                 chk(f"{cname}.area/{dim}D", st, case, area, lambda: cls(*verts).area, lambda v: close(v, area))
+            # invariance under isometries, on an object that has already been measured (everything it may memorise is filled)
+            from ..moved import motions, warm
+            for mname, mv, T, Ti in motions(dim):
+                def moved_area(mv=mv):
+                    x = warm(g.Polygon(*verts))
+                    x.area, x.centroid
+                    return mv(x).area
+                chk(f"Polygon.area/{dim}D/measured-then-moved/{mname}", st, case, area, moved_area, lambda v: close(v, area))
+                if dim == 2:
+                    c2 = (np.array(T) @ np.array(r["centroid"])).tolist()
+
+                    def moved_centroid(mv=mv):
+                        x = warm(g.Polygon(*verts))
+                        x.centroid
+                        return mv(x).centroid
+                    chk(f"Polygon.centroid/2D/measured-then-moved/{mname}", st, case, c2, moved_centroid, lambda v, c2=c2: same_class(v.array, c2))
             if dim == 2:
                 c = r["centroid"]
                 chk("Polygon.centroid/2D", st, case, c, lambda: g.Polygon(*verts).centroid, lambda v: same_class(v.array, c))
@@ -103,6 +119,9 @@ def replay(recs):
             chk("Cuboid.area", st, case, r["area"], lambda: mk().area, lambda v: close(v, r["area"]))
             chk("Polyhedron.faces.area(sum)", st, case, r["area"], lambda: float(np.sum(mk().faces.area)), lambda v: close(v, r["area"]))
             chk("Polyhedron[i].area(sum)", st, case, r["area"], lambda: float(sum(mk()[i].area for i in range(6))), lambda v: close(v, r["area"]))
+            from ..moved import motions, warm
+            for mname, mv, T, Ti in motions(3):
+                chk(f"Cuboid.area/measured-then-moved/{mname}", st, case, r["area"], lambda mv=mv: mv(warm(mk())).area, lambda v: close(v, r["area"]))
             chk("Cuboid.edges/vertices", st, case, {"edges": 12, "vertices": 8}, lambda: (len(mk().edges), len(mk().vertices)), lambda v: v == (12, 8))
             # the same solid with the three edge vertices in another order is the same polyhedron
             other = lambda: g.Cuboid(g.Point(*r["a"]), g.Point(*r["c"]), g.Point(*r["d"]), g.Point(*r["b"]))  # noqa: E731
